@@ -1,4 +1,5 @@
 import SJ.Proofs.Tables
+import SJ.Proofs.ParseIff
 import SJ.Proofs.ParseWF
 import SJ.Proofs.Bridge
 /-
@@ -63,5 +64,26 @@ theorem C02_parse_readback (cfg : Cfg) (nd : Bool) (input : Bytes) (pj : PJ) (hs
       ∃ ds, owalk pj = .ok ds ∧ decodeTapeD pj = some ds ∧ ds = (lvs.map erase).map DecodeSound.toOVal := by
   obtain ⟨lvs, h1, h2, _, _, _, hd, _⟩ := SJ.ParseWF.parse_wf cfg nd input pj hsz h
   exact ⟨lvs, h1, h2, hd⟩
+
+
+open SJ.Layout SJ.ParseDefs SJ.TrimEdge in
+/-- **Accepted documents are exposed with exactly the value the grammar assigns.** If the specification accepts the text
+    as the document `v` (nesting, array elements in order, object members in source order with duplicate keys, strings
+    and keys after unescaping, numbers typed as C03 states, booleans, nulls), then `Parse` succeeds, the tape denotes
+    exactly `ofSpec v` (`WF`), and the ordered walk through the public iterator API returns exactly `ofSpec v` — nothing
+    dropped, duplicated, reordered or re-parented, for every size, depth and white-space layout. -/
+theorem C02_parse_value (cfg : Cfg) (input : Bytes) (he : EdgeOK input) (hsz : SizeOK (trimSpace input)) (v : Spec.JVal)
+    (h : Spec.containerText (jsonTrim input).toList = .accept v) :
+    ∃ pj, parse cfg input = .ok pj ∧ WF pj [ofSpec v] ∧ owalk pj = .ok [DecodeSound.toOVal (ofSpec v)] := by
+  obtain ⟨pj, _, hp, _, _, _, _, hwf, hw, _⟩ := SJ.ParseIff.parse_accepts cfg input he hsz v h
+  exact ⟨pj, hp, hwf, hw⟩
+
+open SJ.Layout SJ.ParseDefs SJ.TrimEdge in
+/-- the same for newline-delimited input: one root per non-blank line, in order -/
+theorem C02_parseND_value (cfg : Cfg) (input : Bytes) (he : EdgeOK input) (hsz : SizeOK (trimSpace input)) (vs : List Spec.JVal)
+    (h : Spec.ndText (jsonTrim input).toList = .accept (.arr vs)) :
+    ∃ pj, parseND cfg input = .ok pj ∧ WF pj (vs.map ofSpec) ∧ owalk pj = .ok ((vs.map ofSpec).map DecodeSound.toOVal) := by
+  obtain ⟨pj, _, hp, _, _, _, _, hwf, hw⟩ := SJ.ParseIff.parseND_accepts cfg input he hsz vs h
+  exact ⟨pj, hp, hwf, hw⟩
 
 end SJ.Properties.C02
